@@ -59,13 +59,13 @@ def lexer_tie(ctx, pend, oexe, lexe):
     add("keyword-automaton", G.keyword_sweep())
     add("first-byte", G.first_byte_sweep())
     add("operator-glue", G.operator_glue())
-    add("soup", G.lexeme_soup(rng, 6000 if ctx.thorough else 1500))
+    add("soup", G.lexeme_soup(rng, 30000 if ctx.thorough else 5000))
     exs = [open(f, "rb").read() for f in example_files()]
     add("example", exs)
-    for e in rng.sample(exs, min(len(exs), 40 if ctx.thorough else 12)):
-        add("mutated-example", G.mutate_bytes(rng, e[:4000], 30 if ctx.thorough else 10))
+    for e in rng.sample(exs, min(len(exs), 114 if ctx.thorough else 30)):
+        add("mutated-example", G.mutate_bytes(rng, e[:4000], 60 if ctx.thorough else 15))
     expected = {}
-    for _ in range(3000 if ctx.thorough else 800):
+    for _ in range(30000 if ctx.thorough else 4000):
         t, exp = G.gen_token_text(rng, rng.randint(1, 14))
         expected[len(inputs)] = exp
         inputs.append(t)
@@ -155,13 +155,13 @@ def parser_tie(ctx, pend, oexe, pexe):
             report(sig, {"kind": "parser", "input_hex": x.hex(), "input": x[:300].decode("latin1"), "implementation": da, "model": dm}, valid and not a.startswith("OK"))
 
     # (b) generated trees: show (pp u) must be read back as u (the printer is the specification)
-    n_units = 1200 if ctx.thorough else 300
-    n_exprs = 4000 if ctx.thorough else 1200
+    n_units = 8000 if ctx.thorough else 1000
+    n_exprs = 30000 if ctx.thorough else 4000
     sx = []
     for _ in range(n_units):
         sx.append(("unit", G.sx_unit(G.gen_unit(rng, rng.choice([1, 2, 2, 3])))))
     for _ in range(n_exprs):
-        e = G.gen_expr(rng, rng.choice([1, 2, 3, 3, 4, 5]))
+        e = G.gen_expr(rng, rng.choice([1, 2, 3, 3, 4, 5, 6, 8]))
         sx.append(("expr", "(cu (types) (methods) (preds) (stmts (expr %s)))" % G.sx_expr(e)))
     shown = lang_lib.run_oracle(oexe, ["show " + s for _, s in sx])
     texts, wanted, kinds = [], [], []
@@ -192,7 +192,7 @@ def parser_tie(ctx, pend, oexe, pexe):
 
     # (c) mutated text: acceptance / rejection and trees must agree between model and implementation
     muts = []
-    for x in rng.sample(texts, min(len(texts), 400 if ctx.thorough else 120)):
+    for x in rng.sample(texts, min(len(texts), 4000 if ctx.thorough else 600)):
         muts += G.mutate_tokens(rng, x, 6)
     impl = [lang_lib.canon_parse(x) for x in lang_lib.run_harness(pexe, muts, jobs=4, tmo=5)]
     model = lang_lib.run_oracle(oexe, ["parse " + x.hex() for x in muts])
@@ -218,15 +218,19 @@ def eval_programs(ctx):
     """-> list of (program text, probe name, kind 'a'|'b', expected value, env spec for the oracle, expr sx, tags)"""
     rng = ctx.rng
     progs = []
-    n_a = 700 if ctx.thorough else 180
-    n_b = 700 if ctx.thorough else 180
+    skipped = [0]
+    ctx.cov["evaluation_skipped_out_of_range"] = skipped
+    n_a = 6000 if ctx.thorough else 700
+    n_b = 6000 if ctx.thorough else 700
     for _ in range(n_a):
         nv = rng.choice([0, 0, 1, 2, 3])
         names = ["x%d" % i for i in range(nv)]
         vals = {n: G.lit_value(G.frac_lit(rng)) * rng.choice([1, 1, -1]) for n in names}
         e, const = G.gen_arith(rng, rng.choice([1, 2, 3, 4]), set(names))
         want = G.eval_arith(e, vals)
-        if want is None:
+        mag = G.arith_magnitude(e, vals)
+        if want is None or mag is None or mag >= 2 ** 28:
+            skipped[0] += 1
             continue
         lines = []
         for n in names:
@@ -249,7 +253,11 @@ def eval_programs(ctx):
         e = G.gen_bool(rng, rng.choice([1, 2, 3]), set(bn), set(an))
         try:
             want = G.eval_bool(e, bvals, avals)
+            mag = G.bool_magnitude(e, avals)
         except (TypeError, KeyError):
+            continue
+        if mag is None or mag >= 2 ** 28:
+            skipped[0] += 1
             continue
         tags = []
         if G.disj_forced(e, bvals, avals):
@@ -381,7 +389,8 @@ def run(ctx):
         "LONG_MAX = 2^63 - 1 (smt::I = long on the build platform); riddle::parser::max_depth = 1000 mirrored as Parser.MAX_DEPTH (checked by the deep-nesting cases of C18)",
         "the clause encodings behind bool literals (C13) and the meaning of lra relation literals (C11) are taken from those properties",
     ]
-    ctx.assumptions += ["evaluation theorems are about well-typed LINEAR expressions (products with at most one non-constant factor, constant non-zero divisors), the precondition core::mult / core::div assert",
+    ctx.assumptions += ["generated evaluation programs keep every intermediate numerator and denominator below 2^28 (no machine overflow: the range clause of C15)",
+                        "evaluation theorems are about well-typed LINEAR expressions (products with at most one non-constant factor, constant non-zero divisors), the precondition core::mult / core::div assert",
                         "function and constructor calls are parsed (theorems) but not evaluated by the model (outside the property's quantifier)",
                         "a boolean expression is identified with the formula its literal is defined to be equivalent to (C13)"]
 
